@@ -240,6 +240,9 @@ int ops_misc(char **args, int na)
 			struct mtbl_threadpool *tp = NULL;
 			if (npool >= 0) { tp = mtbl_threadpool_init((size_t)npool); mtbl_writer_options_set_threadpool(wo, tp); }
 			int fd = open(path, O_RDWR | O_CREAT | O_EXCL, 0644);
+			/* off=<n>: the writer gets a descriptor that already stands n bytes into the file (reserved leading bytes) */
+			long off0 = kvnum(kvs, nkv, "off", 0);
+			for (long q = 0; q < off0; q++) { uint8_t b = 0xEE; if (write(fd, &b, 1) != 1) _exit(5); }
 			struct mtbl_writer *w = mtbl_writer_init_fd(fd, wo);
 			vf_write_armed = 1;
 			/* record the calls even if we abort: flush them from an atexit-free path by writing after every add is not
